@@ -2,7 +2,7 @@
    Statements only.  The tables (`types`, `severable_ids`, `steps_prepare`, `hash_table`) are REGENERATED from /repo;
    the interpreter (Suit/Interp.v) is hand-written and tied to the code by the correspondence check. *)
 Require Import Coq.Strings.String.
-From Verif Require Import Base.Prim Base.Str Cbor.Codec Suit.Py Suit.Ty Suit.Interp Suit.Tables Suit.Digest Suit.Embed gen.GenTypes gen.GenSpec.
+From Verif Require Import Base.Prim Base.Str Cbor.Codec Suit.Py Suit.Ty Suit.Interp Suit.Tables Suit.Digest Suit.Typed Suit.TypedObj Suit.Embed gen.GenTypes gen.GenSpec.
 Open Scope Z_scope.
 
 (* the order of calls in prepare_suit_data (and in the two other places that prepare an envelope) as extracted from
@@ -54,15 +54,19 @@ Theorem create_digests_correct H uuid5 fs jl jd fuel o out :
              dv = VUnion j (VSeq [VRaw alg; VRaw (CBytes h)])
              /\ to_cbor types fuel (key_ty ee) ev = Ok data /\ hash_of (map fst hash_table) H alg data = Ok h).
 Proof.
-  exact (create_digests types (map fst hash_table) H uuid5 fs jl jd severable_ids steps_prepare steps_processed steps_digest_ext
-           (proj1 update_order_in_source) severable_nodup severable_not_2_3 fuel o out).
+  intros Hc.
+  destruct (create_digests types (map fst hash_table) H uuid5 fs jl jd severable_ids steps_prepare steps_processed steps_digest_ext
+              (proj1 update_order_in_source) severable_nodup severable_not_2_3 fuel o out Hc)
+    as (ents & em & mm & ai & ae & mi & me & ments & H1 & H2 & H3 & H4 & H5 & H6 & H7 & H8 & _).
+  exists ents, em, mm, ai, ae, mi, me, ments. repeat (split; [assumption|]). assumption.
 Qed.
 Print Assumptions create_digests_correct.
 
 (* BYTE LEVEL: the bytes written are the serialisation of tag 107 over a map whose entry 3 is the deserialisation of
    exactly the bytes mb that were hashed into the authentication wrapper's digest (mb = serialisation of the manifest
-   member under cbstr(SuitManifest) = the byte-string-wrapped manifest).  The two side conditions — the object's members
-   have distinct table indices, and members carried under text keys really have text keys — are explicit premises. *)
+   member under cbstr(SuitManifest) = the byte-string-wrapped manifest).  The side condition — members carried under text keys (integrated payloads / dependencies) really have text keys — is
+   an explicit premise; that the object's members have distinct table indices is PROVED (well-typedness of the tree built
+   from the description, Suit/TypedObj.v). *)
 Lemma envelope_root : lookup (s2b "SuitEnvelopeTagged") types = Some (TTag 107 (s2b "SUIT_Envelope_Tagged") (TRef (s2b "SuitEnvelope"))).
 Proof. vm_compute. reflexivity. Qed.
 Definition envelope_members_table : list (bytes * Z * ty) :=
@@ -74,19 +78,33 @@ Proof. vm_compute. reflexivity. Qed.
 Lemma envelope_ids_distinct : NoDup (map key_id envelope_members_table).
 Proof. apply nodup_Z_ok. vm_compute. reflexivity. Qed.
 
+(* the regenerated type table is well formed (every referenced class exists, no bare list, '*' members only last): by
+   computation on the table of this run; with it, every object tree built from a description is well-typed (Suit/TypedObj.v),
+   in particular the member list of the envelope object has pairwise different indices *)
+Lemma types_well_formed : env_wf types = true.
+Proof. vm_compute. reflexivity. Qed.
+
+Theorem created_trees_are_well_typed H uuid5 fs jl jd fuel t o v : wf types t = true ->
+  from_obj types (map fst hash_table) H uuid5 fs jl jd severable_ids steps_processed steps_digest_ext fuel t o = Ok v -> wt types t v.
+Proof.
+  intros Hwf E. pose proof (from_obj_wt types (map fst hash_table) H uuid5 fs jl jd severable_ids steps_processed steps_digest_ext types_well_formed fuel t o Hwf) as Hw.
+  rewrite E in Hw. exact Hw.
+Qed.
+Print Assumptions created_trees_are_well_typed.
+
 Theorem digest_is_over_the_embedded_manifest H uuid5 fs jl jd fuel o out :
   create types (map fst hash_table) H uuid5 fs jl jd severable_ids steps_prepare steps_processed steps_digest_ext fuel o = Ok out ->
   exists ents ai j alg h blocks mb,
     to_cbor types fuel (TRef (s2b "SuitEnvelopeTagged")) (VTagged (VKV ents)) = Ok out
     /\ kv_get ents ai = Some (VSeq (VUnion j (VSeq [VRaw alg; VRaw (CBytes h)]) :: blocks))
     /\ hash_of (map fst hash_table) H alg mb = Ok h
-    /\ (NoDup (map fst ents) -> (forall f, payloads_text (to_cbor types f) envelope_members_table ents) ->
+    /\ ((forall f, payloads_text (to_cbor types f) envelope_members_table ents) ->
         exists c data cm,
           dec mb = Ok c /\ dict_get data (cint 3) = Some c /\ dec (ser (CMap data)) = Ok cm /\ out = ser (CTag 107 cm)).
 Proof.
   exact (create_digest_over_embedded_manifest types (map fst hash_table) H uuid5 fs jl jd severable_ids steps_prepare steps_processed steps_digest_ext
            (s2b "SuitEnvelope") (s2b "SUIT_Envelope_Tagged") 107 envelope_members_table envelope_embedded
-           envelope_root envelope_table envelope_ids_distinct (proj1 update_order_in_source) severable_nodup severable_not_2_3 fuel o out).
+           envelope_root envelope_table envelope_ids_distinct types_well_formed (proj1 update_order_in_source) severable_nodup severable_not_2_3 fuel o out).
 Qed.
 Print Assumptions digest_is_over_the_embedded_manifest.
 
@@ -102,12 +120,12 @@ Theorem severed_digests_are_over_the_embedded_members H uuid5 fs jl jd fuel o ou
          find_idx (fun x => key_id x =? sid) envelope_members_table O = Some (ei, ee) -> kv_get ents ei = Some ev -> sid <> -1 -> sid <> -2 ->
          exists j alg data h,
            dv = VUnion j (VSeq [VRaw alg; VRaw (CBytes h)]) /\ hash_of (map fst hash_table) H alg data = Ok h
-           /\ (NoDup (map fst ents) -> (forall f, payloads_text (to_cbor types f) envelope_members_table ents) ->
+           /\ ((forall f, payloads_text (to_cbor types f) envelope_members_table ents) ->
                exists c dmap cm, dec data = Ok c /\ dict_get dmap (cint sid) = Some c /\ dec (ser (CMap dmap)) = Ok cm /\ out = ser (CTag 107 cm)).
 Proof.
   exact (create_digests_over_embedded_members types (map fst hash_table) H uuid5 fs jl jd severable_ids steps_prepare steps_processed steps_digest_ext
            (s2b "SuitEnvelope") (s2b "SUIT_Envelope_Tagged") 107 envelope_members_table envelope_embedded
-           envelope_root envelope_table envelope_ids_distinct (proj1 update_order_in_source) severable_nodup severable_not_2_3 fuel o out).
+           envelope_root envelope_table envelope_ids_distinct types_well_formed (proj1 update_order_in_source) severable_nodup severable_not_2_3 fuel o out).
 Qed.
 Print Assumptions severed_digests_are_over_the_embedded_members.
 
